@@ -19,6 +19,8 @@ TIERS = {
     'quick': {'workers': 8, 'cases': 1350, 'timeout': 600},
     'thorough': {'workers': 16, 'cases': 14000, 'timeout': 3000},
 }
+# further workloads for the property's online monitor (vf/online.py): the repository's tests and other checks' generated cases
+ONLINE = {'which': ['rtop'], 'foreign': ['C01', 'C04', 'C05', 'C10', 'C11', 'C12', 'C17', 'C20'], 'n': {'quick': 30, 'thorough': 400}}
 REQUIRED_BUCKETS = ['section:none-marker', 'section:scoped', 'section:provider', 'section:macro', 'section:constant-omitted', 'param:default-shown',
                     'param:binding-shown', 'param:caller-supplied-omitted', 'param:caller-supplied-once-gin-once', 'param:denylisted-default-omitted',
                     'param:nonrepresentable-omitted', 'param:nonrepresentable-default-omitted', 'replay:done', 'history:rebind', 'history:5+calls',
